@@ -73,6 +73,7 @@ func VerifyUnit(ld *Loaded, u *FuncUnit, cfg *Config) (res *UnitResult) {
 	fr.unit = u
 	x.top = fr
 	st := &State{reach: tb.True, heap: map[string]*Term{}, epoch: x.newEpoch(), cells: map[cellKey][]*Term{}}
+	x.epoch0 = st.epoch
 	var args []Val
 	for _, p := range fn.Params {
 		v := x.freshVal(p.Type(), "p_"+p.Name())
@@ -150,12 +151,18 @@ func VerifyUnit(ld *Loaded, u *FuncUnit, cfg *Config) (res *UnitResult) {
 		// not generated (and the function is reported as partially verified)
 		var keep []*Obligation
 		for _, o := range x.obls {
-			if o.Kind == "assert" || o.Kind == "cover" {
+			ok := o.Kind == "assert" || o.Kind == "cover" || o.Kind == "inv-init" || o.Kind == "inv-pres"
+			for _, k := range u.C.PartialKinds {
+				if o.Kind == k || (strings.Contains(k, ":") && strings.Contains(o.Name, "#"+k)) {
+					ok = true
+				}
+			}
+			if ok {
 				keep = append(keep, o)
 			}
 		}
 		x.obls = keep
-		x.assumed["partial contract of "+u.Pkg.Name+"."+u.Key+": only the listed assertions are decided, the function's other obligations (bounds, nil, callee preconditions) are not generated"] = true
+		x.assumed["partial contract of "+u.Pkg.Name+"."+u.Key+": only its assertions and invariants"+kindsNote(u.C.PartialKinds)+" are decided, the function's other obligations are not generated"] = true
 	}
 	res.Obls = x.obls
 	for _, o := range res.Obls {
@@ -654,3 +661,10 @@ func diagConj(o *Obligation, conj []*Term) string {
 }
 
 func tb0(o *Obligation) *TB { return o.x.tb }
+
+func kindsNote(ks []string) string {
+	if len(ks) == 0 {
+		return ""
+	}
+	return " and the obligations of kind " + strings.Join(ks, ", ")
+}
